@@ -84,4 +84,14 @@ PLAN = {
         quick=[dict(test="TestC06", cases=1200, shards=12, timeout=900)],
         thorough=[dict(test="TestC06", cases=40000, shards=16, timeout=3400, shrink=120)],
     ),
+    "C11": dict(
+        level="exploration",
+        rule=("histories (<= 30 ops quick / 80 thorough) of staking-precompile calls by 3 EOAs and a contract over 3 validators: delegateV2, undelegateV2, redelegateV2, withdraw, approveShares, transferShares, transferFromShares "
+              "(sender == recipient explicitly generated; recipient with/without delegation; all / half / all-1 / given share amounts, odd wei), interleaved with real reward allocation and real validator slashing. Oracle: per transfer exact share movement, "
+              "validator tokens/shares untouched, allowance reduced exactly, pending rewards of both parties paid; after every step delegations sum to validator shares and every registered crisis invariant (staking, distribution, bank, gov) holds; at the end every delegator withdraws and fully undelegates. "
+              "non-trivial = a transfer after rewards accrued, or to oneself, or after a slash"),
+        assumptions=["withdraw addresses are the delegators' own addresses", "the SDK's max-unbonding-entries limit is respected in the final undelegation"],
+        quick=[dict(test="TestC11", cases=640, shards=16, timeout=900)],
+        thorough=[dict(test="TestC11", cases=24000, shards=16, timeout=3400, shrink=120)],
+    ),
 }
